@@ -92,7 +92,7 @@ pub type TransFn<'a> = &'a (dyn Fn(&Envelope, &str, &Result<Option<Envelope>, Pa
 
 /// Breadth-first from every root (roots in parallel). `on_state` is called once per distinct state (including roots),
 /// `on_trans` once per (state, op) pair. Path descriptions are built lazily.
-pub fn explore(roots: &[(String, Envelope)], ops: &[Op], depth: usize, on_state: StateFn, on_trans: TransFn) -> (Stats, Acc) {
+pub fn explore(roots: &[(String, Envelope)], ops: &[Op], depth: usize, on_state: StateFn, on_trans: TransFn, imm_sig: Option<&str>) -> (Stats, Acc) {
     let results: Vec<(Stats, Acc)> = roots.par_iter().map(|(rname, root)| {
         let mut acc = Acc::new();
         let mut st = Stats { states: 0, transitions: 0, merged: 0, refused: 0, panics: 0, max_depth: 0, sequences: 0, per_depth: vec![0; depth + 1] };
@@ -104,6 +104,7 @@ pub fn explore(roots: &[(String, Envelope)], ops: &[Op], depth: usize, on_state:
         for d in 0..depth {
             let mut next = vec![];
             for (e, path) in &frontier {
+                let before = if imm_sig.is_some() { Some(e.to_cbor_data()) } else { None };
                 for (i, o) in ops.iter().enumerate() {
                     st.transitions += 1;
                     let r = catch(|| (o.f)(e));
@@ -122,6 +123,13 @@ pub fn explore(roots: &[(String, Envelope)], ops: &[Op], depth: usize, on_state:
                                 let mut p = path.clone(); p.push(i as u16); next.push((r, p));
                             } else { st.merged += 1; acc.outcome(format!("{}:merged", o.name)); }
                         }
+                    }
+                }
+                // receiver immutability: after all operations were applied to this state it still serialises to the same bytes
+                if let (Some(sig), Some(b)) = (imm_sig, before) {
+                    acc.inc("receiver_immutability_checks");
+                    if e.to_cbor_data() != b || state_key(e) != state_key(&Envelope::try_from_cbor_data(b.clone()).unwrap_or_else(|_| e.clone())) {
+                        acc.viol(sig.to_string(), "an operation altered the envelope it was applied to", describe(path), serde_json::json!({"before": hex::encode(&b), "after": hex::encode(e.to_cbor_data())}));
                     }
                 }
             }
